@@ -242,7 +242,10 @@ def b2(ctx):
       desc="tree store: the index is rewritten only under its lock file, and the lock is aborted on the error path")
 def b3(ctx):
     obs = []
-    li = ctx.P.cls("xandikos.store.git.locked_index")
+    GITQ = "xandikos.store.git.locked_index"
+    if GITQ not in ctx.P.classes and ctx.P.has_func(GITQ) and {"contextmanager", "contextlib.contextmanager"} & set(ctx.func(GITQ).decorators):
+        return obs + _b3_generator(ctx, ctx.func(GITQ)) + _b3_sites(ctx)
+    li = ctx.P.cls(GITQ)
     en = ctx.own_method(li.qualname, "__enter__")
     ex = ctx.own_method(li.qualname, "__exit__")
     # __enter__ takes the lock (GitFile(path, 'wb'))
@@ -304,6 +307,57 @@ def b3(ctx):
                   for n in walk_local(ex.node))
     obs.append(ctx.ob(through, ex.qualname, ex.where, "index is written through the lock file", "SHA1Writer(self._file)",
                       "the index is not written through the GitFile that holds the lock"))
+    return obs + _b3_sites(ctx)
+
+
+def _b3_generator(ctx, fi):
+    """B3 for ``locked_index`` written as a ``contextlib.contextmanager`` generator: the part before the ``yield``
+    is __enter__, an exception at the ``yield`` is the error path, what follows the ``yield`` is the normal exit."""
+    obs = []
+    cfg = ctx.cfg(fi)
+    du = DefUse(cfg)
+    from ..dataflow import origins
+    ys = [n for n in cfg.stmt_nodes() if n.kind == "stmt" and isinstance(n.ast, ast.Expr) and isinstance(n.ast.value, ast.Yield)]
+    if len(ys) != 1:
+        raise AnalysisError("locked_index (generator form): expected exactly one yield, found %d" % len(ys))
+    y = ys[0]
+    gf_nodes = [n for n in cfg.stmt_nodes() for c in n.calls() if (dotted(c.func) or "").split(".")[-1] == "GitFile"
+                and any(isinstance(a, ast.Constant) and isinstance(a.value, str) and "w" in a.value for a in c.args[1:2])]
+    ok = bool(gf_nodes) and cfg.normal_completion_dominates(gf_nodes, y)
+    obs.append(ctx.ob(ok, fi.qualname, fi.where, "__enter__ opens the lock file", "GitFile(path, 'wb') takes <index>.lock before the yield",
+                      "locked_index no longer opens the index through GitFile(..., 'wb') before yielding: no lock is taken"))
+    writes = [n for n in cfg.stmt_nodes() for c in n.calls() if (dotted(c.func) or "").split(".")[-1] in ("write_index_dict", "write_index", "close")]
+    aborts = [n for n in cfg.stmt_nodes() for c in n.calls() if (dotted(c.func) or "").endswith(".abort")]
+    # error path: what is reachable from the exceptional successors of the yield, up to leaving the function
+    r = cfg.reachable([m for m, l in y.succ if l == "exc"])
+    wr = [w for w in writes if w.id in r]
+    ab = [a for a in aborts if a.id in r]
+    leaves_by_raise = cfg.exit.id not in r or bool(ab)
+    obs.append(ctx.ob(not wr and bool(ab) and leaves_by_raise, fi.qualname, where(fi, y), "error path aborts and does not write",
+                      "on an exception the lock file is aborted, the index is not written",
+                      "on the exception path locked_index %s" % ("writes the index" if wr else "does not abort the lock file")))
+    wnodes = [n for n in cfg.stmt_nodes() for c in n.calls() if (dotted(c.func) or "").split(".")[-1] == "write_index_dict"]
+    ok = False
+    for w in wnodes:
+        for m, l in w.succ:
+            if l == "exc" and any(a.id in cfg.reachable([m]) for a in aborts):
+                ok = True
+    obs.append(ctx.ob(ok, fi.qualname, fi.where, "failed index write aborts the lock", "exception in write_index_dict -> abort()",
+                      "an exception while writing the index does not abort the lock file (a partial index.lock could be renamed)"))
+    through = False
+    for n in cfg.stmt_nodes():
+        for c in n.calls():
+            if (dotted(c.func) or "").split(".")[-1] == "SHA1Writer" and c.args:
+                ao = origins(du, n, c.args[0])
+                if ao and all(o.kind == "expr" and isinstance(o.leaf, ast.Call) and (dotted(o.leaf.func) or "").split(".")[-1] == "GitFile" for o in ao):
+                    through = True
+    obs.append(ctx.ob(through, fi.qualname, fi.where, "index is written through the lock file", "SHA1Writer(<the GitFile>)",
+                      "the index is not written through the GitFile that holds the lock"))
+    return obs
+
+
+def _b3_sites(ctx):
+    obs = []
     # index mutations only under the lock
     tree = ctx.P.cls(TREE)
     nsites = 0
